@@ -118,18 +118,22 @@ func c17Run(c *CaseC17) int64 {
 }
 
 // bitCell returns the cell of the 2^Z-fold subdivision of [min,max) containing altitude a (clamped),
-// with a tolerance band at cell borders.
-func bitCell(a, mn, mx float64, Z int64) ref.IndexResult {
+// with a tolerance band at cell borders: Index is the exact cell, and any cell of [Index-?, Index+?] that the
+// altitude reaches when moved by the band is acceptable (NearEdge / Alt describe that range: Alt is its far end).
+type cellRange struct {
+	Index  int64 // exact (clamped) cell
+	Lo, Hi int64 // acceptable cells: those containing a-band .. a+band
+}
+
+func (r cellRange) ok(got int64) bool { return got >= r.Lo && got <= r.Hi }
+
+func bitCell(a, mn, mx float64, Z int64) cellRange {
 	ra, rmn, rmx := new(big.Rat), new(big.Rat), new(big.Rat)
 	ra.SetFloat64(a)
 	rmn.SetFloat64(mn)
 	rmx.SetFloat64(mx)
 	w := new(big.Rat).Sub(rmx, rmn)
-	pos := new(big.Rat).Sub(ra, rmn)
-	pos.Quo(pos, w)
 	n := new(big.Int).Lsh(big.NewInt(1), uint(Z))
-	pos.Mul(pos, new(big.Rat).SetInt(n))
-	idx := new(big.Int).Div(pos.Num(), pos.Denom())
 	last := new(big.Int).Sub(n, big.NewInt(1))
 	clampI := func(v *big.Int) int64 {
 		if v.Sign() < 0 {
@@ -140,24 +144,34 @@ func bitCell(a, mn, mx float64, Z int64) ref.IndexResult {
 		}
 		return v.Int64()
 	}
-	res := ref.IndexResult{Index: clampI(idx)}
-	// band: |border - a| <= (|min|+|max|+|a|) * 2^-40, expressed in cell units
-	band := new(big.Rat)
-	band.SetFloat64((math.Abs(mn) + math.Abs(mx) + math.Abs(a)) * 0x1p-40)
-	band.Quo(band, w)
-	band.Mul(band, new(big.Rat).SetInt(n))
-	lower := new(big.Rat).Sub(pos, new(big.Rat).SetInt(idx))
-	upper := new(big.Rat).Sub(big.NewRat(1, 1), lower)
-	if lower.Cmp(band) <= 0 {
-		if alt := clampI(new(big.Int).Sub(idx, big.NewInt(1))); alt != res.Index {
-			res.NearEdge, res.Alt = true, alt
-		}
-	} else if upper.Cmp(band) <= 0 {
-		if alt := clampI(new(big.Int).Add(idx, big.NewInt(1))); alt != res.Index {
-			res.NearEdge, res.Alt = true, alt
+	cellOf := func(alt *big.Rat) int64 {
+		pos := new(big.Rat).Sub(alt, rmn)
+		pos.Quo(pos, w)
+		pos.Mul(pos, new(big.Rat).SetInt(n))
+		return clampI(ratFloorInt(pos))
+	}
+	// band: |border - a| <= (|min|+|max|+|a|) * 2^-46 (Z <= 35 float halvings of values of that magnitude).
+	// No band when the range is dyadic (max-min a power of two and min a multiple of the cell size): every halving
+	// is exact in float64 there, so an altitude exactly on a border must fall into the upper cell ([min,max) is half open).
+	bw := (math.Abs(mn) + math.Abs(mx) + math.Abs(a)) * 0x1p-46
+	if fr, ex := math.Frexp(mx - mn); fr == 0.5 && mx-mn > 0 {
+		cell := math.Ldexp(1, ex-1-int(Z))
+		if cell >= 0x1p-40 && math.Mod(mn, cell) == 0 && math.Abs(mn) < 0x1p40 && math.Abs(mx) < 0x1p40 {
+			bw = 0
 		}
 	}
+	band := new(big.Rat)
+	band.SetFloat64(bw)
+	res := cellRange{Index: cellOf(ra)}
+	res.Lo = cellOf(new(big.Rat).Sub(ra, band))
+	res.Hi = cellOf(new(big.Rat).Add(ra, band))
 	return res
+}
+
+func ratFloorInt(r *big.Rat) *big.Int {
+	q, m := new(big.Int), new(big.Int)
+	q.DivMod(r.Num(), r.Denom(), m)
+	return q
 }
 
 func classifyC17(c *CaseC17) (bool, []string) {
@@ -204,7 +218,7 @@ func classifyC17(c *CaseC17) (bool, []string) {
 	return nt, cl
 }
 
-func checkRun(fl *Fails, kind, desc string, got []int64, lo, hi ref.IndexResult) {
+func checkRun(fl *Fails, kind, desc string, got []int64, lo, hi cellRange) {
 	if len(got) == 0 {
 		fl.Add(kind+"-empty", "%s: no vertical IDs", desc)
 		return
@@ -227,10 +241,10 @@ func checkRun(fl *Fails, kind, desc string, got []int64, lo, hi ref.IndexResult)
 	if int64(len(seen)) != mx-mn+1 {
 		fl.Add(kind+"-gap", "%s: vertical IDs %v are not a contiguous run", desc, got)
 	}
-	if !okIndex(mn, lo) {
+	if !lo.ok(mn) {
 		fl.Add(kind+"-low-end", "%s: run starts at %d, the cell containing the bottom altitude is %d", desc, mn, lo.Index)
 	}
-	if !okIndex(mx, hi) {
+	if !hi.ok(mx) {
 		fl.Add(kind+"-high-end", "%s: run ends at %d, the cell containing the top altitude is %d", desc, mx, hi.Index)
 	}
 }
@@ -326,7 +340,14 @@ func checkC17(c *CaseC17, fl *Fails) {
 	la, _ := loAlt.Float64()
 	ha, _ := hiAlt.Float64()
 	band := (math.Abs(mn) + math.Abs(mx)) * 0x1p-40
-	checkRun(fl, "backward", desc, got, ref.AltIndex(la, c.OutV, band), ref.AltIndex(ha, c.OutV, band))
+	toRange := func(r ref.IndexResult) cellRange {
+		cr := cellRange{Index: r.Index, Lo: r.Index, Hi: r.Index}
+		if r.NearEdge {
+			cr.Lo, cr.Hi = min64(r.Index, r.Alt), max64(r.Index, r.Alt)
+		}
+		return cr
+	}
+	checkRun(fl, "backward", desc, got, toRange(ref.AltIndex(la, c.OutV, band)), toRange(ref.AltIndex(ha, c.OutV, band)))
 }
 
 func sweepC17(tier string, emit func(*CaseC17)) {
@@ -362,7 +383,7 @@ func init() {
 	register(PropT[CaseC17]{
 		ID:          "C17",
 		Rule:        "rapid: height range (symmetric / asymmetric dyadic, documented example, non-dyadic float, integer) x subdivision zoom 0..35; forward: voxel zoom chosen so that the run has <=~4096 cells, voxel placed around the bottom / top of the range, inside it, or anywhere (outside: clamped), extended or single-zoom API; backward: bit index (edge-weighted) x output zoom bounded the same way. Both directions are also called with the heights swapped (error clause). Sweep: 5 dyadic ranges x Z<=4 x voxel zooms 20..27 across the range, all bit cells x 5 output zooms. Non-trivial: non-dyadic range, or voxel straddling a range end, or run length>=3.",
-		Assumptions: []string{"oracle: exact rational subdivision index floor((a-min)2^Z/(max-min)) clamped to 0..2^Z-1; either neighbouring cell accepted when the altitude is within (|min|+|max|+|a|)*2^-40 of a cell border (Z<=35 float halvings)", "backward: ends compared with floor(alt/res) of the cell's exact altitude bounds with the same band", "run length bounded to ~4096 by construction"},
+		Assumptions: []string{"oracle: exact rational subdivision index floor((a-min)2^Z/(max-min)) clamped to 0..2^Z-1; either neighbouring cell accepted when the altitude is within (|min|+|max|+|a|)*2^-46 of a cell border (no band at all for dyadic ranges, where the halving is exact) (Z<=35 float halvings)", "backward: ends compared with floor(alt/res) of the cell's exact altitude bounds with the same band", "run length bounded to ~4096 by construction"},
 		Gen:         genC17, Check: checkC17, Classify: classifyC17, Sweep: sweepC17,
 		SweepScopes: func(tier string) []string {
 			return []string{"5 dyadic ranges x Z<=4 x voxel zooms 20..27 x up to 80 voxels across the range (forward)", "5 dyadic ranges x Z<=4 x every bit cell x output zooms {20,24,25,26,28} (backward, exhaustive over the cells)"}
